@@ -17,6 +17,10 @@ CLAIMED = {
    text='TLC checks the functional-update semantics (SFUpdate: assign with element / label-aligned Series / Frame values, assign.bloc, drop, mask, astype, relabel, rename, insert) against the declarative statements OnlyAddressed / ElementStored / DropExact / MaskExact on every key x value shape of a small scope (MC_C08); every enumerated case is replayed on the real Frame/Series on block layouts with the source re-projected after the call, and seeded random calls recorded from the real code are validated by TLC (Trace_Ops).',
    ref='DESIGN.md section 4 (C08)', note='Trusted: TLC, the projection, NumPy. Error classes are not observables of C08. Frame-valued assignment is compared dtype-free (layout-dependent dtype is recorded under C03).',
    technique='TLA+ spec SFUpdate + TLC model checking; TLC state dump replayed into the code; recorded calls validated by a TLC trace spec'),
+ 'C14': dict(
+   text='TLC checks, for EVERY missing pattern of a row of N cells, every partition of the row into blocks, both directions and every limit, that the block-carried directional fill (one bridging value / count / flag per row, SFNA.BlockRowFill) equals the declarative per-cell definition, and that ValidUntouched / LimitRespected / SidedOnlyEdge / CountExact / DropnaExact hold (MC_C14, 118k states quick); every enumerated case is replayed on a real Frame with exactly that block partition; seeded random frames (incl. wide multi-run rows) recorded from the real code are validated by TLC.',
+   ref='DESIGN.md section 4 (C14)', note='Trusted: TLC, the projection, NumPy. Axis-1 results are compared dtype-free and with one missing marker (layout-dependent dtype is recorded under C03). Exhaustive only inside MC_C14 bounds.',
+   technique='TLA+ spec SFNA (declarative + block-carried fill) model checked with TLC; state dump replayed into the code; recorded calls validated by a TLC trace spec'),
 }
 REASON_TODO = 'not yet built in this round: the specification module for this property is still being written (see DESIGN.md section 9)'
 ALL = ['C%02d' % i for i in range(1, 21)]
